@@ -655,6 +655,13 @@ impl Mp4TrackWriter {
                         "sequence parameter set is shorter than its 4-byte header",
                     ));
                 }
+                if avc_config.seq_param_set.len() > u16::MAX as usize
+                    || avc_config.pic_param_set.len() > u16::MAX as usize
+                {
+                    return Err(Error::InvalidData(
+                        "parameter set is too long for its 16-bit length field",
+                    ));
+                }
                 trak.tkhd.set_width(avc_config.width);
                 trak.tkhd.set_height(avc_config.height);
 
